@@ -11,7 +11,9 @@
 (*   ends     end_k for every document of the stream, in units of the      *)
 (*            stream (offset at which the token that terminates it starts) *)
 (*   yields   << [k, req] >> in order: document k delivered when req units  *)
-(*            had been handed out by the stream                            *)
+(*            had been handed out by the stream (instrumented stream), or   *)
+(*            when the descriptor of a real file stood at req (bytes)       *)
+(*   slack    the file object's own read-ahead, measured (0 otherwise)      *)
 (*   outcome  "done" | "raised" | "abandoned" | "exception"                *)
 (*   bad      [kind, doc, at]: the malformed document of the stream        *)
 (*            ("-" none; "reader": offending unit at offset `at`;          *)
@@ -36,7 +38,7 @@ Delivered(t) == Len(t.yields)
 
 Judge(t) ==
   LET n == Len(t.ends)
-      late == {j \in DOMAIN t.yields : t.yields[j].k # j \/ j > n \/ ~HL!Within(Over(t.yields[j].req, t.ends[j]), t.block)}
+      late == {j \in DOMAIN t.yields : t.yields[j].k # j \/ j > n \/ ~HL!Within(Over(HL!Charged(t.yields[j].req, t.slack), t.ends[j]), t.block)}
   IN
   IF \E j \in DOMAIN t.yields : t.yields[j].k # j \/ j > n THEN Bad("documents out of order", 0)
   ELSE IF late # {} THEN Bad("requested more than two blocks ahead", CHOOSE j \in late : \A i \in late : j <= i)
